@@ -205,7 +205,7 @@ def c02_cases(rng, tier):
         cases.append({'src': prog(['নাম শূ;', 'যদি মিথ্যা {', '} অথবা যদি %s {' % c, '    দেখাও "ভিতরে";', '}', 'দেখাও "পরে";']), 'alone': None, 'kind': 'nonbool'})
     for src in P2.repeated_chain_programs(rng, 120 if tier != 'thorough' else 800):
         cases.append({'src': src, 'alone': None, 'kind': 'repeated-chain'})
-    for c in P3.special_float_chain_programs() + P3.chain_junction_programs(rng, 80 if tier != 'thorough' else 600) + P4.chain_block_shape_programs(rng, 150 if tier != 'thorough' else 1000):
+    for c in P3.special_float_chain_programs() + P3.chain_junction_programs(rng, 80 if tier != 'thorough' else 600) + P4.chain_block_shape_programs(rng, 150 if tier != 'thorough' else 1000) + P4.jump_only_branch_programs():
         cases.append(dict(c, alone=None))
     return cases
 
